@@ -499,10 +499,12 @@ Proof.
 Qed.
 
 Lemma step_env_ok : forall st a, inv13 st ->
-  match a with AConvSet | AConvRemove | AConvAdd | AEnvUnc _ | AEnvConvWork _ | ABoot => True | _ => False end ->
+  match a with AMarkNew | AMarkEdit | AConvSet | AConvRemove | AConvAdd | AEnvUnc _ | AEnvConvWork _ | ABoot => True | _ => False end ->
   inv13 (step capdb bad rf merge st a).
 Proof.
   intros st a I H. destruct a; try contradiction; simpl; try exact I.
+  - apply (invx_same [] st); auto. apply (i_queue _ _ I).
+  - apply start_converter_ok. apply start_tagging_ok. apply (invx_same [] st); auto. apply (i_queue _ _ I).
   - apply start_converter_ok. apply start_tagging_ok. exact I.
   - apply start_tagging_ok. exact I.
   - apply (invx_same [] st); auto. apply (i_queue _ _ I).
@@ -734,7 +736,7 @@ Qed.
 
 Theorem step_inv13 : forall st a, inv13 st -> inv13 (step capdb bad rf merge st a).
 Proof.
-  intros st a I. destruct a as [ks|v|v|v|v| |h|h| | | |n|b| | |k|k].
+  intros st a I. destruct a as [ks|v|v|v|v| |h|h| | | | | |n|b| | |k|k].
   - apply step_import_ok; auto.
   - apply step_view_ok; auto.
   - apply step_read_ok; auto.
@@ -743,6 +745,8 @@ Proof.
   - apply step_tagadd_ok; auto.
   - apply step_tagdel_ok; auto.
   - apply step_tagupd_ok; auto.
+  - apply step_env_ok; simpl; auto.
+  - apply step_env_ok; simpl; auto.
   - apply step_env_ok; simpl; auto.
   - apply step_env_ok; simpl; auto.
   - apply step_env_ok; simpl; auto.
@@ -818,7 +822,7 @@ Qed.
 
 Lemma step_uniq : forall st a, inv13 st -> uniq st -> uniq (step capdb bad rf merge st a).
 Proof.
-  intros st a I U. destruct a as [ks|v|v|v|v| |h|h| | | |n|b| | |k|k]; simpl; auto.
+  intros st a I U. destruct a as [ks|v|v|v|v| |h|h| | | | | |n|b| | |k|k]; simpl; auto.
   - destruct ks; auto. destruct (ascending _ _); auto.
     destruct (_ =? _)%nat; auto.
   - destruct (view_of v (views st)); auto.
@@ -827,6 +831,7 @@ Proof.
   - destruct (vtag_of v (vtags st)) as [[stamp b0]|]; auto.
   - intros u. rewrite indexes_start_tagging. apply U.
   - intros u. rewrite indexes_start_tagging. apply U.
+  - intros u. rewrite indexes_start_converter, indexes_start_tagging. apply U.
   - intros u. rewrite indexes_start_converter, indexes_start_tagging. apply U.
   - intros u. rewrite indexes_start_converter, indexes_start_tagging. apply U.
   - intros u. rewrite indexes_start_tagging. apply U.
